@@ -71,8 +71,15 @@ def write_dataset(d, spec):
         spec = dict(spec, spike_times_sec=[s / float(spec['sample_rate']) for s in spec['spike_samples']])
     dtypes = dict(DEFAULT_DTYPES)
     dtypes.update(spec.get('dtypes', {}))
+    if spec.get('times_in_seconds'):
+        # the spike times are given in SECONDS (spikes.times.npy) and there is no file of samples: the loader recovers
+        # the samples by rounding times*rate (generators use it only where that recovers spec['spike_samples'] exactly)
+        rate = float(spec['sample_rate'])
+        sec = np.array([s / rate for s in spec['spike_samples']], dtype=np.float64)
+        assert np.array_equal(np.round(sec * rate).astype(np.int64), np.array(spec['spike_samples'], dtype=np.int64))
+        np.save(d / 'spikes.times.npy', sec.reshape((-1, 1)) if spec.get('vec2d') else sec)
     for key, fname in names.items():
-        if spec.get(key) is None:
+        if spec.get(key) is None or (key == 'spike_samples' and spec.get('times_in_seconds')):
             continue
         arr = np.array(spec[key], dtype=dtypes[key])
         if key in VEC_KEYS and spec.get('vec2d'):
